@@ -353,6 +353,22 @@ def h_linear_action(env, N, how):
     vec_eq(env, 'image', vec_of(A, N, M), want)
 
 
+def h_monomial_inverse(env, N, c):
+    """PauliMonomial.inverse(): m.inverse() @ m is the identity operator (concrete coefficient, symbolic string and phase)"""
+    M = Mods(env)
+    g = env.bits('g', (2 * N,))
+    p = env.phases('p', (1,))[0]
+    m = M.pa.PauliMonomial(g.copy(), p).set_c(complex(*c))
+    res = env.run(lambda: m.inverse() @ m)
+    env.goal('no_exception', b_not(res.raised))
+    if res.value is not None:
+        v = vec_of(res.value, N, M)
+        ident = tuple([0] * (2 * N))
+        for s_ in v:
+            env.goal('coefficient[%s]' % ''.join(map(str, s_)), b_and(eq(v[s_][0], 1 if s_ == ident else 0), eq(v[s_][1], 0)))
+    env.goal('receiver_unchanged', AND([arr_eq(m.g, g), eq(m.p, p)]))
+
+
 KINDS = ('Pauli', 'PauliMonomial', 'PauliPolynomial')
 
 
@@ -408,6 +424,8 @@ def jobs(tier):
         if thorough:
             J.append(dict(harness=('c15', 'h_reduce_trace'), params=dict(N=N, ks=[0, 20, 20]), timeout_s=600, max_paths=20000, cost=60))
         J.append(dict(harness=('c15', 'h_reduce_trace'), params=dict(N=N, ks=[0, 20], tol=1e-3), timeout_s=600, cost=20))
+        for c in ((2, 0), (0, 1), (-0.5, 0), (0, -4)):
+            J.append(dict(harness=('c15', 'h_monomial_inverse'), params=dict(N=N, c=list(c)), max_paths=5000))
         for how in ('rotate', 'transform'):
             J.append(dict(harness=('c15', 'h_linear_action'), params=dict(N=N, how=how), timeout_s=600))
     return J
